@@ -202,7 +202,7 @@ def emit_base(d, world, acts, base_side):
 
 GADGET_SHAPES = ("create_create_same", "create_create_diff", "edit_edit", "edit_delete", "delete_delete",
                  "rename_edit", "rename_rename", "create_rename_onto", "file_vs_folder", "mkdir_mkdir",
-                 "rmdir_create_inside", "dirmove_create_inside")
+                 "rmdir_create_inside", "dirmove_create_inside", "rmtree_create_inside")
 
 
 def emit_gadget(d, world, acts, shapes=GADGET_SHAPES):
@@ -256,6 +256,20 @@ def emit_gadget(d, world, acts, shapes=GADGET_SHAPES):
         elif shape == "rmdir_create_inside" and empty_dirs:
             g = d.choice(empty_dirs)
             ops = [[a, "delete", g], [b, "create", g + "/" + d.choice(NAMES), world.new_content()]]
+        elif shape == "rmtree_create_inside":
+            # a folder TREE (at least two levels) is removed on one side while the other side puts a new file into its
+            # deepest folder
+            trees = []
+            for g in sdirs:
+                sub = t0.subtree(g)
+                inner = [q for q in sub if t0.is_dir(q)]
+                if inner and g not in used_as_parent and all(world.settled_untouched(q) and q not in used_as_parent for q in sub):
+                    trees.append((g, max(inner, key=lambda q: (q.count("/"), q))))
+            if trees:
+                g, h = d.choice(trees)
+                free = [n for n in NAMES if not t0.exists(h + "/" + n)]
+                if free and depth(h) < MAX_DEPTH:
+                    ops = [[a, "rmtree", g], [b, "create", h + "/" + d.choice(free), world.new_content()]]
         elif shape == "dirmove_create_inside" and empty_dirs and news:
             g = d.choice(empty_dirs)
             cand = [n for n in news if not n.startswith(g + "/")]
